@@ -195,7 +195,8 @@ func c02RunOne(record []byte, push bool, prefix []int, mapOrders bool) (*vs.Exec
 			return "R", nil
 		}
 		asg := assignerFunc(func(ctx context.Context, m string) jrpc2.Handler {
-			if c02Known[m] || m == "probe" {
+			// the assigner would serve every rpc.* name: with the built-ins on, none may reach it
+			if c02Known[m] || m == "probe" || strings.HasPrefix(m, "rpc.") {
 				return hd
 			}
 			return nil
@@ -497,7 +498,7 @@ func c02Explore(r *SeqRun, record []byte, push, allOrders bool) {
 var (
 	c02Ver    = []string{"", `"jsonrpc":"2.0"`, `"jsonrpc":"1.0"`, `"jsonrpc":2`, `"jsonrpc":null`, `"jsonrpc":["2.0"]`, `"JSONRPC":"2.0"`}
 	c02ID     = []string{"", `"id":7`, `"id":-3`, `"id":0`, `"id":1.5`, `"id":1e3`, `"id":"s"`, `"id":""`, `"id":"1"`, `"id":null`, `"id":true`, `"id":[1]`, `"id":{}`, `"ID":7`, `"id":3,"Id":4`}
-	c02Method = []string{"", `"method":"ok"`, `"method":"fail"`, `"method":""`, `"method":"nope"`, `"method":"rpc.serverInfo"`, `"method":"rpc.nope"`, `"method":5`, `"method":null`, `"method":["ok"]`, `"Method":"ok"`, `"method":"ok","METHOD":"nope"`}
+	c02Method = []string{"", `"method":"ok"`, `"method":"fail"`, `"method":""`, `"method":"nope"`, `"method":"rpc.serverInfo"`, `"method":"rpc.nope"`, `"method":"rpc.a.b"`, `"method":5`, `"method":null`, `"method":["ok"]`, `"Method":"ok"`, `"method":"ok","METHOD":"nope"`}
 	c02Params = []string{"", `"params":[]`, `"params":[1]`, `"params":{}`, `"params":{"a":1}`, `"params":null`, `"params":0`, `"params":"s"`, `"params":true`}
 	c02Extra  = []string{"", `"x":1`, `"result":1`, `"result":null`, `"error":{"code":1,"message":"m"}`, `"error":5`}
 )
@@ -548,7 +549,7 @@ func c02Reps() []string {
 	return []string{
 		`{"jsonrpc":"2.0","id":1,"method":"ok"}`, `{"jsonrpc":"2.0","id":2,"method":"ok","params":[1]}`, `{"jsonrpc":"2.0","id":"a","method":"fail"}`,
 		`{"jsonrpc":"2.0","method":"ok"}`, `{"jsonrpc":"2.0","id":null,"method":"ok","params":{"a":1}}`, `{"jsonrpc":"2.0","method":"nope"}`,
-		`{"jsonrpc":"2.0","id":3,"method":"nope"}`, `{"jsonrpc":"2.0","id":4,"method":"rpc.serverInfo"}`, `{"jsonrpc":"2.0","id":5,"method":"rpc.nope"}`, `{"jsonrpc":"2.0","method":"rpc.nope"}`,
+		`{"jsonrpc":"2.0","id":3,"method":"nope"}`, `{"jsonrpc":"2.0","id":4,"method":"rpc.serverInfo"}`, `{"jsonrpc":"2.0","id":5,"method":"rpc.nope"}`, `{"jsonrpc":"2.0","method":"rpc.nope"}`, `{"jsonrpc":"2.0","id":15,"method":"rpc.serverInfo.x"}`, `{"jsonrpc":"2.0","method":"rpc.a.b.c"}`, `{"jsonrpc":"2.0","id":16,"method":"rpc."}`,
 		`{"jsonrpc":"1.0","id":6,"method":"ok"}`, `{"id":7,"method":"ok"}`, `{"jsonrpc":"2.0","id":8,"method":""}`, `{"jsonrpc":"2.0","id":9,"method":5}`,
 		`{"jsonrpc":"2.0","id":10,"method":"ok","params":0}`, `{"jsonrpc":"2.0","id":true,"method":"ok"}`, `{"jsonrpc":"2.0","id":11,"method":"ok","x":1}`,
 		`{"jsonrpc":"2.0","id":12,"method":"ok","result":1}`, `{"jsonrpc":"2.0","id":13,"result":1}`, `{"jsonrpc":"2.0","id":14,"error":{"code":1,"message":"m"}}`,
@@ -699,7 +700,7 @@ func c02EndedContext(push bool) *Scenario {
 					lib, peer, _ := NewPipe(PipeOpts{Name: "srv", CloseUnblocksRecv: true, Quiet: true})
 					hd := func(ctx context.Context, req *jrpc2.Request) (any, error) { return "R", nil }
 					asg := assignerFunc(func(ctx context.Context, m string) jrpc2.Handler {
-						if c02Known[m] || m == "probe" {
+						if c02Known[m] || m == "probe" || strings.HasPrefix(m, "rpc.") {
 							return hd
 						}
 						return nil
